@@ -98,11 +98,19 @@ def _track_tree(ctx, tree, td, where):
         _expect_state(ctx, state, bd, "%s bar %d" % (where, i))
 
 
+def _music(comp):
+    return [[[[e[0], e[1], mg.nc_snapshot(e[2])] for e in b.bar] + [b.key.key, list(b.meter)] for b in t.bars] for t in comp.tracks]
+
+
 def check_ly_comp(ctx, cd):
     comp = mg.build_comp(cd)
+    before = _music(comp)
     text = ctx.ok("from_Composition", LY.from_Composition, comp)
     if failed(text):
         return
+    again = ctx.ok("from_Composition", LY.from_Composition, comp)
+    ctx.check(failed(again) or again == text, "lilypond/second-export-differs", "")
+    ctx.check(_music(comp) == before, "lilypond/export-changed-the-music", "")
     r = _parse(ctx, text, "from_Composition")
     if r is not None:
         h = r["header"]
@@ -289,9 +297,14 @@ def _mx_measure(ctx, m, bd, where):
 
 
 def check_mx_comp(ctx, cd):
-    text = ctx.ok("from_Composition", MX.from_Composition, mg.build_comp(cd))
+    comp = mg.build_comp(cd)
+    before = _music(comp)
+    text = ctx.ok("from_Composition", MX.from_Composition, comp)
     if not failed(text):
         _mx_comp(ctx, text, cd, "from_Composition")
+        again = ctx.ok("from_Composition", MX.from_Composition, comp)
+        ctx.check(failed(again) or again == text, "musicxml/second-export-differs", "")
+        ctx.check(_music(comp) == before, "musicxml/export-changed-the-music", "")
     _note(ctx, cd, "mx-comp")
 
 
